@@ -34,7 +34,7 @@ from ..core import pool_map
 MODULE = "comm/BlockDiag.tla"
 DEVS = ["RejectedMetricCommitted", "NaiveKeepsCallerDict", "ReturnedNsAliasesChannel", "ArgsNotResetOnMetricChange",
         "StaleStreamCounts", "SolveStoresDecision", "PowerCachedAtConstruction", "AbsoluteRankTolerance"]
-ALL_ACTS = {"Construct", "SetAttr", "SetMetric", "EditDict", "NewChannel", "SolveBD", "SolveExt", "CalcWhitening", "CalcReceiveFilter", "Scribble"}
+ALL_ACTS = {"Construct", "CalcFilterUserK", "SetAttr", "SetMetric", "EditDict", "NewChannel", "SolveBD", "SolveExt", "CalcWhitening", "CalcReceiveFilter", "Scribble"}
 INVS = ["TypeOK", "MetricArgsConsistent", "ChannelIntact", "NoSharedDict", "RequiredAfterSolve", "ResultObeysCurrentAttributes", "RankIsScaleFree"]
 PROPS = ["RejectedLeavesUnchanged", "OnlySetMetricChangesMetric", "SolveUsesCurrentMetric", "SolveLeavesConfig", "OnlySettersChangeObject",
          "SetAttrChangesOnlyThat"]
@@ -100,11 +100,16 @@ def draw_channel(rs, K, N, rE):
     raise RuntimeError("no well-conditioned channel in 200 draws")
 
 
-def make_mu_channel(M, K, N, rE, nv, variant=0):
+def make_mu_channel(M, K, N, rE, nv, variant=0, nte=None):
+    """nte: antennas of the external interference SOURCES (several sources; their ranks add up to rE)"""
     from pyphysim.channels import multiuser
     ch = multiuser.MultiUserChannelMatrixExtInt()
     ants = np.ones(K, dtype=int) * N
-    ch.init_from_channel_matrix(np.array(M), ants.copy(), ants.copy(), K, rE if variant % 2 == 0 else [rE])
+    if nte is not None and len(nte) > 1:
+        NtE = list(nte) if variant % 2 == 0 else np.array(nte)
+    else:
+        NtE = rE if variant % 2 == 0 else [rE]
+    ch.init_from_channel_matrix(np.array(M), ants.copy(), ants.copy(), K, NtE)
     ch.noise_var = nv
     return ch
 
@@ -234,6 +239,12 @@ def eval_ext(req, M, K, N, rE, p, lastrec, Ms, Wk, Ns, stats=None):
         bad.append(f"AllStreamsKept: stream counts {ns}, expected {N} each")
     if "StreamCountIsNumStreams" in req and ns != [lastrec["n"]] * K:
         bad.append(f"StreamCountIsNumStreams: stream counts {ns}, expected num_streams = {lastrec['n']} each")
+    if "DecidedCountAvoidsDominantInterference" in req:
+        if stats is not None:
+            stats["dominant_interference_decisions"] = stats.get("dominant_interference_decisions", 0) + 1
+        if not all(x <= N - rE for x in ns):
+            bad.append(f"DecidedCountAvoidsDominantInterference: stream counts {ns} with dominant external interference of rank {rE} "
+                       f"(at most {N - rE} of {N} streams avoid it)")
     if "StreamCountInRange" in req and not all(1 <= x <= N for x in ns):
         bad.append(f"StreamCountInRange: stream counts {ns} outside 1..{N}")
     if bad:
@@ -259,6 +270,8 @@ def eval_ext(req, M, K, N, rE, p, lastrec, Ms, Wk, Ns, stats=None):
             res = fro(Wk[k].dot(Hek))
             if stats is not None:
                 stats["extint_users_checked"] = stats.get("extint_users_checked", 0) + 1
+                key = "extint_users_checked:" + str(lastrec.get("mname", "?"))
+                stats[key] = stats.get(key, 0) + 1
             if res > TOL * fro(Wk[k]) * fro(Hek):
                 bad.append(f"ExtIntRemovedWhenEnoughStreamsSacrificed: user {k} keeps {ns[k]} of {N} streams (ext. int. rank {rE}) "
                            f"but |W_k He_k| = {res:.3e}")
@@ -282,7 +295,10 @@ def eval_whitening(req, M, K, N, rE, pe, nv, Wall):
             bad.append(f"WhiteningFiltersWhitenExtIntPlusNoise: whitening filter of user {k} has shape {W.shape} / non-finite entries")
             continue
         C = W.dot(R).dot(W.conj().T)
-        if not np.allclose(C, np.eye(N), atol=TOL_ID, rtol=0):
+        # the small eigenvalues of an ill-conditioned covariance (dominant interference over weak noise) are only determined to
+        # eps * cond(R) by any eigen-solver: conditioning-aware tolerance, computed from the channel alone
+        tol = max(TOL_ID, 50 * np.finfo(float).eps * np.linalg.cond(R))
+        if not np.allclose(C, np.eye(N), atol=tol, rtol=0):
             bad.append(f"WhiteningFiltersWhitenExtIntPlusNoise: W_k R_k W_k^H of user {k} deviates {np.abs(C - np.eye(N)).max():.3e} from I")
     return bad
 
@@ -366,6 +382,7 @@ class Driver:
         self.M = None            # harness copy of [H | He]
         self.ch = None           # the MultiUserChannelMatrixExtInt handed to the library (ext classes)
         self.ch_nv = None        # the noise variance given to that channel object
+        self.nte = None          # antennas of its external interference sources
         self.dims = None
         self.res = None          # what the last solve returned
         self.res_M = None        # ... the channel it was computed for
@@ -444,7 +461,7 @@ class Driver:
         b = self.fresh({"name": "None"}, c)
         try:
             if op == "ext":
-                self.solve_ext(b, make_mu_channel(self.M, K, N, rE, self.ch_nv))
+                self.solve_ext(b, make_mu_channel(self.M, K, N, rE, self.ch_nv, nte=self.nte))
             else:
                 self.solve_bd(b, op, np.array(self.M[:, :K * N]), c)
         except Exception:
@@ -456,7 +473,7 @@ class Driver:
             return []
         K, N, rE = self.dims
         o = copy.deepcopy(self.o)
-        ch = make_mu_channel(self.M, K, N, rE, self.ch_nv)
+        ch = make_mu_channel(self.M, K, N, rE, self.ch_nv, nte=self.nte)
         try:
             Ms, Wk, Ns = self.solve_ext(o, ch)
         except Exception as ex:
@@ -464,15 +481,56 @@ class Driver:
         req = set(pr["req"]) & {"StreamCountsMatchPrecoders", "AllStreamsKept", "StreamCountIsNumStreams", "StreamCountInRange", "PowerEqPerUser"}
         return [f"probe solve: {b}" for b in eval_ext(req, self.M, K, N, rE, frac(pr["cfg"]["p"]), pr["last"], Ms, Wk, Ns)]
 
+    def filter_user_k(self, ns, req):
+        """EnhancedBD.calc_receive_filter_user_k(Heq P, P) as a public static method: generic Heq, generic non-orthonormal P"""
+        K, N, rE = self.dims
+        sc = float(np.abs(self.M).max())
+        for _ in range(50):
+            Heq = (self.rs.randn(N, N) + 1j * self.rs.randn(N, N)) / np.sqrt(2.0)
+            P = (self.rs.randn(N, max(ns, 1)) + 1j * self.rs.randn(N, max(ns, 1))) / np.sqrt(2.0)
+            if np.linalg.cond(Heq) <= 1e2 and np.linalg.cond(P) <= 1e2 and np.linalg.cond(Heq.dot(P)) <= 1e3:
+                break
+        Heq = Heq * sc
+        if ns == 0:
+            args = (argument_form(Heq, self.rs.randint(0, 4)),) if self.rs.randint(0, 2) else (argument_form(Heq, self.rs.randint(0, 4)), None)
+            A, Pm = Heq, None
+        else:
+            A, Pm = Heq.dot(P), P
+            args = (argument_form(A, self.rs.randint(0, 4)), argument_form(P, self.rs.randint(0, 4)))
+        keep = [None if x is None else np.array(x) for x in args]
+        try:
+            W = type(self.o).calc_receive_filter_user_k(*args) if self.rs.randint(0, 2) else self.o.calc_receive_filter_user_k(*args)
+        except Exception as ex:
+            return [f"calc_receive_filter_user_k raised {type(ex).__name__}: {ex}"]
+        bad = []
+        W = np.asarray(W)
+        for x, y in zip(args, keep):
+            if x is not None and (not np.array_equal(x, y) or np.shares_memory(W, x)):
+                bad.append("InputsUntouched: calc_receive_filter_user_k modified an argument / returned a view of it")
+        n = A.shape[1]
+        if W.shape != (n, N) or not np.all(np.isfinite(W)):
+            return bad + [f"FilterInvertsInsideSpanOfP: filter of shape {W.shape}, expected {(n, N)}"]
+        if "FilterInvertsInsideSpanOfP" in req and not np.allclose(W.dot(A), np.eye(n), atol=TOL_ID, rtol=0):
+            bad.append(f"FilterInvertsInsideSpanOfP: W (Heq P) deviates {np.abs(W.dot(A) - np.eye(n)).max():.3e} from I")
+        if "FilterIgnoresOutsideSpanOfP" in req and Pm is not None:
+            proj = Pm.dot(np.linalg.pinv(Pm))
+            out = fro(W.dot(np.eye(N) - proj))
+            if out > TOL * fro(W):
+                bad.append(f"FilterIgnoresOutsideSpanOfP: |W (I - P P^+)| = {out:.3e} of |W| = {fro(W):.3e}")
+        self.stats["filter_user_k_calls"] = self.stats.get("filter_user_k_calls", 0) + 1
+        return bad
+
     def probe_plain(self):
         """block_diagonalize_no_waterfilling / block_diagonalize on a COPY of a plain object must obey the current power"""
-        if self.M is None or self.cfg["cls"] != "BD":
+        if self.M is None:
             return []
         K, N, rE = self.dims
         H = self.M[:, :K * N]
         o = copy.deepcopy(self.o)
         bad = []
         for op, req in (("bd_nowf", {"PowerEqPerUser", "EffectiveChannelBlockDiagonal"}), ("bd_wf", {"PowerLePerUser", "PowerReachedByOne"})):
+            if op == "bd_nowf" and self.cfg["cls"] != "BD":
+                continue          # (the ext-int classes override it: probed by probe())
             try:
                 newH, Ms = self.solve_bd(o, op, np.array(H))
             except Exception as ex:
@@ -557,7 +615,8 @@ class Driver:
             self.redraws += rd
             self.dims = (K, N, rE)
             self.ch_nv = c["nv"] * 10.0 ** (2 * a.get("sc", 0))   # the channel object's noise scales with the channel
-            self.ch = make_mu_channel(self.M, K, N, rE, self.ch_nv, variant=self.rs.randint(0, 2)) if rE else None
+            self.nte = a.get("nte", [rE])
+            self.ch = make_mu_channel(self.M, K, N, rE, self.ch_nv, variant=self.rs.randint(0, 2), nte=self.nte) if rE else None
             return bad
         K, N, rE = self.dims
         KN = K * N
@@ -604,7 +663,7 @@ class Driver:
             except Exception:
                 pass
             if "SameAsFreshObject" in req and not bad:
-                ref = self.solve_ext(self.fresh(post["metric"]), make_mu_channel(self.M, K, N, rE, self.ch_nv))
+                ref = self.solve_ext(self.fresh(post["metric"]), make_mu_channel(self.M, K, N, rE, self.ch_nv, nte=self.nte))
                 if not same_result((Ms, Wk, np.asarray(Ns, dtype=float)), (ref[0], ref[1], np.asarray(ref[2], dtype=float))):
                     bad.append((None, "SameAsFreshObject: the solve on this object differs from the same solve on a fresh object with the "
                                 "current attribute values and metric (history leaked)"))
@@ -618,6 +677,10 @@ class Driver:
             bad += [(None, b) for b in self.channel_untouched()]
             if do_probe and not bad:       # QueryIsPure
                 bad += [(None, f"after calc_whitening_matrices: {b}") for b in self.probe(e["probe"])]
+        elif op == "CalcFilterUserK":
+            bad += [(None, b) for b in self.filter_user_k(a["ns"], req)]
+            if do_probe and not bad:       # QueryIsPure
+                bad += [(None, f"after calc_receive_filter_user_k: {b}") for b in self.probe(e["probe"])]
         elif op == "CalcReceiveFilter":
             _, newH, Ms = self.res
             Kr = K
@@ -740,15 +803,15 @@ def model_dev(dev):
 def instances(tier):
     """(label, model arguments, replay mode)"""
     thorough = tier == "thorough"
-    sweep_kw = dict(sweep=True, scales=[-7, -3, 0, 4, 7] if thorough else [-7, 0, 7])
-    pel = ["zero", "lo", "hi"] if thorough else ["zero", "hi"]
+    sweep_kw = dict(sweep=True, scales=[-7, 0, 7])
+    pel = ["zero", "tiny", "lo", "hi", "huge"] if thorough else ["zero", "huge"]
     sns = [1, 2, 3] if thorough else [1, 2]
     mods = ["PSK4", "QAM16"] if thorough else ["PSK4"]
     plab = ["lo", "hi", "mid"] if thorough else ["lo", "hi"]
     res = []
     # configuration sweep: every class x K x antennas x rank x scale x power x noise x ext-int power x metric (one TLC run;
     # BlockDiagonalizer objects have pe = "na", so the three classes do not multiply)
-    res.append(("sweep", (["BD", "WBD", "EBD"], [2, 3, 4] if thorough else [2, 3], [1, 2, 3], [1, 2], plab, ["lo", "hi"], pel, sns, mods, [120]), sweep_kw, {"max_len": 8}))
+    res.append(("sweep", (["BD", "WBD", "EBD"], [2, 3, 4] if thorough else [2, 3], [1, 2, 3, 4] if thorough else [1, 2, 3], [1, 2, 3] if thorough else [1, 2], plab, ["lo", "hi"], pel, sns, mods, [120]), sweep_kw, {"max_len": 8}))
     # call histories
     if thorough:
         res.append(("history:BD", (["BD"], [3], [1, 2, 3], [1], ["lo", "hi", "mid"], ["lo", "hi"], ["zero"], [1], ["PSK4"], [120]), {"scales": [-7, 0, 7]}, {"walks": 300, "walk_len": 12}))
@@ -757,9 +820,9 @@ def instances(tier):
                     {"walks": 800, "walk_len": 14, "max_len": 14}))
         res.append(("history:EBD:K2", (["EBD"], [2], [2, 3], [1, 2], ["hi"], ["lo"], ["hi"], [1, 2, 3], ["PSK4", "QAM16"], [120]),
                     {"extras": True, "scales": [7]}, {"walks": 1500, "walk_len": 14, "max_len": 14}))
-        res.append(("history:EBD:K3", (["EBD"], [3], [1, 2], [1, 2], ["lo"], ["hi"], ["lo"], [1, 2], ["PSK4"], [60, 120]),
+        res.append(("history:EBD:K3", (["EBD"], [3], [1, 2], [1, 2], ["lo"], ["hi"], ["tiny"], [1, 2], ["PSK4"], [60, 120]),
                     {"extras": True, "scales": [-7]}, {"walks": 1500, "walk_len": 14, "max_len": 14}))
-        res.append(("history:EBD:K3b", (["EBD"], [3], [2, 3], [1, 2], ["mid"], ["mid"], ["hi"], [1, 2, 3], ["QAM16"], [120]),
+        res.append(("history:EBD:K3b", (["EBD"], [3], [2, 3], [1, 2], ["mid"], ["mid"], ["huge"], [1, 2, 3], ["QAM16"], [120]),
                     {}, {"walks": 1500, "walk_len": 14, "max_len": 14}))
         res.append(("history:EBD:K4pe0", (["EBD"], [4], [2, 3], [1], ["mid"], ["mid"], ["zero"], [1, 2], ["PSK4"], [120]),
                     {"scales": [7]}, {"walks": 800, "walk_len": 14, "max_len": 14}))
@@ -767,9 +830,9 @@ def instances(tier):
         res.append(("history:BD", (["BD"], [4], [2, 3], [1], ["lo", "hi"], ["lo", "hi"], ["zero"], [1], ["PSK4"], [120]), {"scales": [-7, 0, 7]}, {"walks": 20, "walk_len": 10}))
         res.append(("history:WBD", (["WBD"], [2], [2, 3], [1], ["lo", "hi"], ["lo"], ["zero", "hi"], [1], ["PSK4"], [120]), {"scales": [0, 7]}, {"walks": 20, "walk_len": 10}))
         res.append(("history:EBD:attrs", (["EBD"], [2], [2], [1], ["lo", "hi"], ["lo"], ["zero", "hi"], [1], ["PSK4"], [120]),
-                    {"scales": [-7], "acts": ALL_ACTS - {"EditDict", "Scribble", "CalcReceiveFilter"}},
+                    {"scales": [-7], "acts": ALL_ACTS - {"EditDict", "Scribble", "CalcReceiveFilter", "CalcFilterUserK"}},
                     {"walks": 40, "walk_len": 12, "max_len": 12}))
-        res.append(("history:EBD:K2", (["EBD"], [2], [2, 3], [1], ["hi"], ["lo"], ["hi"], [1, 2], ["PSK4"], [120]), {"extras": True},
+        res.append(("history:EBD:K2", (["EBD"], [2], [2, 3], [1], ["hi"], ["lo"], ["huge"], [1, 2], ["PSK4"], [120]), {"extras": True, "acts": ALL_ACTS - {"CalcFilterUserK"}},
                     {"walks": 60, "walk_len": 12, "max_len": 12}))
     return res
 
@@ -808,14 +871,20 @@ def run(ctx):
         ctx.notes.setdefault("replay_wall_s", {})[inst[0]] = round(time.time() - t0, 1)
     ctx.notes["edges_per_instance"] = nedges
     ctx.require_actions(["Construct", "SetAttr", "SetMetric", "SetMetricRejected", "EditDict", "NewChannel", "SolveBD", "SolveExt",
-                         "CalcWhitening", "CalcReceiveFilter", "Scribble"])
+                         "CalcWhitening", "CalcReceiveFilter", "CalcFilterUserK", "Scribble"])
     num = ctx.notes.get("numerics", {})
     if not ctx.violations and not ctx.known_hits:
         # non-vacuity of the conditional numerics
         if num.get("zero_streams", 0) == 0:
             raise tlc.TlcError("no water-filled solve produced a stream without power: the zero-power clause was not exercised")
-        if num.get("extint_users_checked", 0) == 0:
-            raise tlc.TlcError("the external-interference removal predicate was never evaluated")
+        for mname in ("fixed", "capacity", "effective_throughput"):
+            if num.get("extint_users_checked:" + mname, 0) == 0:
+                raise tlc.TlcError(f"the external-interference removal predicate was never evaluated for the {mname} metric (vacuous clause)")
+        if num.get("dominant_interference_decisions", 0) == 0 or num.get("filter_user_k_calls", 0) == 0:
+            raise tlc.TlcError("the dominant-interference decision law / calc_receive_filter_user_k was never exercised")
+    if num.get("ambiguous_streams", 0):
+        raise tlc.TlcError(f"{num['ambiguous_streams']} stream(s) with power in (0, 1e-8 p] were left out of the receive-filter predicate: "
+                           "the clause 'every stream that was given power' lost cases (re-run with another VERIF_SEED and report)")
     ctx.exhaustive = True
     # stage T: recorded random configurations / call sequences validated by TLC (Trace_BlockDiag.tla)
     from . import c09_trace
